@@ -16,6 +16,13 @@
 //	Allegra+: accepted  =>  (start absent or start <= slot) and
 //	                        (hereafter absent or slot < hereafter)
 //
+// Presentation is a dimension of the grid: the same bounds are also written
+// into bodies whose map keys are not ascending (and, from Mary on, that carry
+// keys greater than 8), because nothing in the ledger ties the meaning of key
+// 3 / 8 to its position; those cases are judged by the same oracle and keyed
+// C26:presentation:body-<order>:<era>:<class>. In addition lg.EnableChecks
+// re-validates every case and re-runs rejected cases in other presentations.
+//
 // In-interval cases are observed as well (counted; an era that never accepts
 // one makes the run inconclusive) but a rejection there is not a violation:
 // the statement does not promise acceptance.
@@ -35,8 +42,8 @@ import (
 func init() {
 	core.Register(&core.Monitor{
 		ID:            "C26",
-		Rule:          "exhaustive grid: era (Shelley..Dijkstra) x slot s in {0,1,2,1000,2^32,2^32+1,2^64-2,2^64-1} x validity start x ttl/invalid-hereafter, each bound in {absent,0,1,s-1,s,s+1,2^32,2^64-1} (Shelley: ttl only); thorough adds PRNG slots/bounds near each other; a case is non-trivial when at least one bound is present in the body map; distinct by (era, slot, start, ttl)",
-		MinNontrivial: 1000,
+		Rule:          "exhaustive grid: era (Shelley..Dijkstra) x slot s in {0,1,2,1000,2^32,2^32+1,2^64-2,2^64-1} x validity start x ttl/invalid-hereafter, each bound in {absent,0,1,s-1,s,s+1,2^32,2^64-1} (Shelley: ttl only) x body layout (plain payment ascending; Mary+: body that also has keys above 8 - mint, required signers, network id - ascending, descending, key 3 last, key 8 last, PRNG shuffle; Shelley/Allegra: descending, key 3 last, shuffle); every case is validated three times on the same objects and, when rejected, re-run in the generic presentation variants (body / witness-set key order); thorough adds PRNG slots/bounds near each other; a case is non-trivial when at least one bound is present in the body map; distinct by (era, slot, start, ttl, layout)",
+		MinNontrivial: 5000,
 		Assumptions: []string{
 			"the baseline payment built by ledgergen is valid in every other respect (checked at start: the unbounded transaction is accepted by the full rule list)",
 			"Shelley transactions without a ttl are not judged (ttl is mandatory in the Shelley CDDL; the statement does not cover them)",
@@ -71,6 +78,60 @@ type tcase struct {
 	era        lg.Era
 	slot       uint64
 	start, ttl bound
+	// layout is the presentation of the body: "" = the plain payment, keys
+	// ascending; "rich" = a body that also carries keys above 8 (mint, and
+	// from Alonzo on required signers and network id), ascending; otherwise
+	// the name of a non-canonical key order of the rich (Shelley/Allegra:
+	// plain) body: "desc", "last-3", "last-8", "shuffle".
+	layout string
+}
+
+// layouts lists the non-plain layouts of an era.
+func layouts(e lg.Era) []string {
+	switch {
+	case e == lg.Shelley:
+		return []string{"desc", "shuffle"} // keys 0..3: ttl is the largest key
+	case e == lg.Allegra:
+		return []string{"desc", "last-3", "shuffle"}
+	}
+	return []string{"rich", "desc", "last-3", "last-8", "shuffle"}
+}
+
+// keyPrefix is "C26:" for canonical layouts and
+// "C26:presentation:body-<order>:" for the others.
+func (t tcase) keyPrefix() string {
+	if t.layout == "" || t.layout == "rich" {
+		return "C26:"
+	}
+	return "C26:presentation:body-" + t.layout + ":"
+}
+
+// dress turns the plain baseline into the layout of the case.
+func dress(w *lg.World, spec *lg.TxSpec, layout string, shuffleSeed uint64) {
+	if layout == "" {
+		return
+	}
+	if w.Era >= lg.Mary {
+		script := lg.NativeSig(w.Payer.Hash())
+		policy := lg.ScriptHash(0, script.Encode())
+		spec.NativeScripts = append(spec.NativeScripts, script)
+		spec.Mint = []lg.Asset{lg.Tok(policy, "T", 1)}
+		spec.Outputs[0].Assets = []lg.Asset{lg.Tok(policy, "T", 1)}
+	}
+	if w.Era >= lg.Alonzo {
+		spec.RequiredSigners = []lg.Hash28{w.Payer.Hash()}
+		spec.NetworkID = lg.U8(w.Net)
+	}
+	switch layout {
+	case "desc":
+		spec.BodyOrder = lg.Descending()
+	case "last-3":
+		spec.BodyOrder = lg.KeyLast(3)
+	case "last-8":
+		spec.BodyOrder = lg.KeyLast(8)
+	case "shuffle":
+		spec.BodyOrder = lg.Shuffled(shuffleSeed)
+	}
 }
 
 // boundsFor returns the de-duplicated bound set around slot s.
@@ -108,6 +169,9 @@ func inInterval(e lg.Era, slot uint64, start, ttl bound) (in bool, judged bool) 
 }
 
 func run(c *core.Ctx) {
+	// generic checks: re-validation of the same objects, and presentation
+	// variants of every case that validation rejects (see lg.Independence)
+	lg.EnableChecks(c)
 	worlds := map[lg.Era]*lg.World{}
 	for _, e := range lg.AllEras {
 		w := lg.NewWorld(e)
@@ -125,6 +189,14 @@ func run(c *core.Ctx) {
 		if !o.Accepted {
 			forceInconclusive(c, fmt.Sprintf("%s: unbounded baseline transaction not accepted (decode=%v verify=%v): cannot judge", e, o.DecodeErr, o.VerifyErr))
 			return
+		}
+		if e >= lg.Mary {
+			rich := pre.Clone()
+			dress(w, rich, "rich", 0)
+			if o := w.Run(rich, w.Slot); !o.Accepted {
+				forceInconclusive(c, fmt.Sprintf("%s: unbounded baseline with mint / required signers / network id not accepted (decode=%v verify=%v): cannot judge", e, o.DecodeErr, o.VerifyErr))
+				return
+			}
 		}
 		// document how the interval rules are wired into the era's list
 		var wired []string
@@ -148,7 +220,11 @@ func run(c *core.Ctx) {
 			}
 			for _, st := range starts {
 				for _, tt := range bs {
-					cases = append(cases, tcase{e, s, st, tt})
+					cases = append(cases, tcase{e, s, st, tt, ""})
+					// the same bound case in every other layout of the body map
+					for _, l := range layouts(e) {
+						cases = append(cases, tcase{e, s, st, tt, l})
+					}
 				}
 			}
 		}
@@ -186,7 +262,11 @@ func run(c *core.Ctx) {
 			if !e.HasValidityStart() {
 				st = bound{}
 			}
-			cases = append(cases, tcase{e, s, st, pick(s)})
+			lay := ""
+			if ls := layouts(e); r.Chance(2, 3) {
+				lay = core.Pick(r, ls)
+			}
+			cases = append(cases, tcase{e, s, st, pick(s), lay})
 		}
 	}
 
@@ -198,17 +278,20 @@ func run(c *core.Ctx) {
 		spec := w.Spec.Clone()
 		spec.ValidityStart = tc.start.ptr()
 		spec.TTL = tc.ttl.ptr()
-		desc := fmt.Sprintf("era=%s slot=%d start=%s ttl=%s", tc.era, tc.slot, tc.start, tc.ttl)
+		dress(w, spec, tc.layout, uint64(c.Seed)+uint64(i)*0x9e3779b97f4a7c15)
+		desc := fmt.Sprintf("era=%s slot=%d start=%s ttl=%s layout=%s", tc.era, tc.slot, tc.start, tc.ttl, tc.layout)
 		c.Journal("C26 case %d %s", i, desc)
 		o := w.Run(spec, tc.slot)
 		c.Eval()
 		if tc.start.present || tc.ttl.present {
-			c.Distinct(tc.era.String(), tc.slot, tc.start.String(), tc.ttl.String())
+			c.Distinct(tc.era.String(), tc.slot, tc.start.String(), tc.ttl.String(), tc.layout)
+			c.Count("layout:"+tc.layout, 1)
 		}
 		en := tc.era.String()
 		if o.DecodeErr != nil {
 			// the decoder may refuse a shape; that is a rejection
 			c.Count("decode_rejected_"+en, 1)
+			c.Count("decode_rejected_layout:"+tc.layout, 1)
 		}
 		in, judged := inInterval(tc.era, tc.slot, tc.start, tc.ttl)
 		if !judged {
@@ -311,29 +394,30 @@ func report(c *core.Ctx, offs []offence) {
 		}
 		byKey[k].offs = append(byKey[k].offs, o)
 	}
-	beyond := map[lg.Era]bool{} // era accepted some slot > hereafter (hereafter > 0)
+	beyond := map[string]bool{} // (prefix, era) accepted some slot > hereafter (hereafter > 0)
 	for _, o := range offs {
 		t := o.tc
 		if t.era != lg.Shelley && t.ttl.present && t.ttl.v > 0 && t.slot > t.ttl.v {
-			beyond[t.era] = true
+			beyond[t.keyPrefix()+t.era.String()] = true
 		}
 	}
 	for _, o := range offs {
 		t := o.tc
 		en := t.era.String()
+		p := t.keyPrefix()
 		switch {
 		case t.era == lg.Shelley && t.ttl.v == 0:
-			add("C26:shelley:ttl0", o)
+			add(p+"shelley:ttl0", o)
 		case t.era == lg.Shelley:
-			add("C26:shelley:expired-accepted", o)
+			add(p+"shelley:expired-accepted", o)
 		case t.start.present && t.start.v > t.slot:
-			add("C26:"+en+":lower-bound-ignored", o)
+			add(p+en+":lower-bound-ignored", o)
 		case t.ttl.v == 0:
-			add("C26:"+en+":hereafter-zero-accepted", o)
-		case beyond[t.era]:
-			add("C26:"+en+":upper-bound-ignored", o)
+			add(p+en+":hereafter-zero-accepted", o)
+		case beyond[p+en]:
+			add(p+en+":upper-bound-ignored", o)
 		default:
-			add("C26:"+en+":upper-bound-inclusive", o)
+			add(p+en+":upper-bound-inclusive", o)
 		}
 	}
 	var keys []string
@@ -359,6 +443,9 @@ func report(c *core.Ctx, offs []offence) {
 			}
 			if pa != pb {
 				return pa < pb
+			}
+			if (a.layout == "") != (b.layout == "") {
+				return a.layout == ""
 			}
 			if a.slot != b.slot {
 				return a.slot < b.slot
@@ -386,8 +473,12 @@ func report(c *core.Ctx, offs []offence) {
 		default:
 			what = fmt.Sprintf("%s transaction with invalid-hereafter=%d accepted at slot %d (>= bound; slots beyond the bound are accepted as well)", en, t.ttl.v, t.slot)
 		}
+		if t.layout != "" {
+			what += fmt.Sprintf(" [body layout %q: %s]", t.layout, o.built.Node.Items[0].Diag())
+		}
 		c.Violation(k, fmt.Sprintf("%s; VerifyTransaction with the era's full rule list returned nil (%d such acceptances)", what, len(os)), map[string]any{
 			"era": en, "slot": t.slot, "validity_start": t.start.String(), "ttl_or_invalid_hereafter": t.ttl.String(),
+			"body_layout": t.layout, "body_diag": o.built.Node.Items[0].Diag(),
 			"tx_cbor": core.HexFull(o.built.Cbor), "tx_id": fmt.Sprintf("%x", o.built.TxId[:]),
 			"interval_rules_alone": o.single, "rule_list": lg.RuleNames(t.era), "acceptances_in_this_class": len(os),
 		})
